@@ -134,6 +134,7 @@ def check(run):
                 decisions, events, results, other = lockrun.run_once(backend, scripts, scratch, rng=rng)
                 run.case((backend, 'random', k, run.seed), nontrivial=True)
                 judge_random(run, backend, scripts, decisions, events, results, other, drv)
+        long_hold_family(run, scratch)
         run.exhaustive = False
         if drv is not None and run.corr_disagreements == 0:
             run.obligation('correspondence: %d schedules on the real lock classes give exactly the results of the model interpreting the extracted trees' % run.corr_programs, True)
@@ -141,6 +142,50 @@ def check(run):
         core.rm_rf(scratch)
         if drv is not None:
             drv.close()
+
+
+def long_hold_family(run, scratch):
+    """the model has no clock: elapsed time is a stutter step, so a held (or failed) lock must answer the same after any amount of time.
+    redis: the stand-in's clock is advanced (keys with a TTL expire); file: the clock file_store.py reads (`time`) is advanced.
+    (The keep-alive lock's deliberate age rule is C19's subject.)"""
+    import os as _os
+    for backend in ('redis', 'file', 'dict'):
+        for failed in (False, True):
+            w = lockrun.World(backend, 3, scratch, lambda *a: None)
+            try:
+                A, B, C = w.locks
+                got = [A.get()]
+                if failed:
+                    A.fail()
+                elapsed = 0
+                for dt in (3600, 86400 - 3600, 86400, 10 * 86400, 400 * 86400):
+                    elapsed += dt
+                    if backend == 'redis':
+                        w.server.advance(dt)
+                    elif backend == 'file':
+                        import time as _time
+                        import jug.backends.file_store as _fs
+                        if not any(getattr(u, 'jv_clock', False) for u in w.undo):
+                            saved_time = _fs.time
+
+                            def _undo(saved_time=saved_time):
+                                _fs.time = saved_time
+                            _undo.jv_clock = True
+                            w.undo.append(_undo)
+                        _fs.time = lambda e=elapsed: _time.time() + e
+                    obs = {'B.get': B.get(), 'B.is_locked': B.is_locked(), 'B.is_failed': B.is_failed(), 'A.is_locked': A.is_locked()}
+                    exp = {'B.get': False, 'B.is_locked': True, 'B.is_failed': failed, 'A.is_locked': True}
+                    run.case((backend, 'long-hold', failed, elapsed), nontrivial=True)
+                    run.count('long_hold_points')
+                    if obs != exp:
+                        run.fail('expires-while-held', '%s lock %s by client A and not released: %d s later client B observes %s, expected %s (a lock must exclude until its holder releases it)'
+                                 % (backend, 'marked failed' if failed else 'held', elapsed, obs, exp), {'kind': 'long-hold', 'backend': backend, 'failed': failed, 'elapsed': elapsed})
+                        break
+                A.release()
+                if not C.get():
+                    run.fail('not-reacquirable', '%s lock released by its holder after a long hold cannot be acquired' % backend, {'kind': 'long-hold', 'backend': backend, 'failed': failed})
+            finally:
+                w.close()
 
 
 def judge_random(run, backend, scripts, decisions, events, results, other, drv):
